@@ -527,7 +527,13 @@ def hand_histories() -> list[dict]:
     # the once-per-build missing-imports note (finding F8): main is replayed with its note, a is re-checked and gets one too
     n0 = {"main.py": "import a\nimport missing2\n", "a.py": "import missing1\n"}
     n1 = {"main.py": "import a\nimport missing2\n", "a.py": "import missing1\n# edited\n"}
+    # F11: a 3-cycle x -> y -> z -> x with a cycle-only error in x; z drops `import x` (z's interface changes, y is
+    # re-checked, y's interface does not change): x stays fresh and replays the error computed inside the cycle
+    c0 = {"main.py": "import y\nimport x\n", "x.py": "import y\nv: int = y.w0\n",
+          "y.py": "import z\ndef g() -> int:\n    return 1\nw0 = g()\n", "z.py": "import x\nZ = 1\n"}
+    c1 = dict(c0, **{"z.py": "Z = 1\n"})
     return [
+        H(9016, "F11:cycle-shrunk-member-stays-fresh", "entry", c0, c1),
         H(9010, "directed:trans-dep-hash-of-cycle", "entry", t0, t1),
         H(9015, "F9:implicit-submodule-reference-depends-on-transitive-imports", "entry", t0, t1, t0),
         H(9011, "directed:unsuppress-several-appearing-modules", "entry", s0, s1, s1),
@@ -752,6 +758,8 @@ def classify(w: dict, c: dict, files: dict, h: dict) -> tuple[str, str]:
     key, what = describe_diff(w, c)
     if key.startswith("only-once-note-placement:"):
         return key, what
+    if h.get("key") and h.get("idx", 0) >= 9000:      # a hand history names its own finding
+        return h["key"], what
     if is_f6(w, c, files):
         return "F6:from-import-name-becomes-submodule", what
     cw, cc = canon(w), canon(c)
@@ -829,16 +837,27 @@ Definition mk_store (l : list (modid * (meta * meta_ex * data))) : store :=
             l empty_store.
 Definition ME := Build_meta.
 Definition XE := Build_meta_ex.
+Definition t_view (t : list (modid * (stamp * content))) (m : modid) (s : stamp) : content :=
+  match find (fun e => Nat.eqb (fst e) m && Nat.eqb (fst (snd e)) s) t with Some e => snd (snd e) | None => 0 end.
+Definition t_tab (t : list (modid * list modid)) (m : modid) (v : content) (o : opts) : list modid :=
+  match lookup t m with Some l => l | None => [] end.
 Definition case (cont : list (modid * content)) (imps : list (modid * (content * list modid))) (an : list (modid * result))
   (sccs : list (list modid)) (rch : list (modid * modid)) (ents : list (modid * (meta * meta_ex * data)))
-  (ign : list modid) (th : list (modid * nat)) (fs : FS) (o : opts) :=
+  (ign : list modid) (th : list (modid * nat)) (vw : list (modid * (stamp * content)))
+  (prb imp : list (modid * list modid)) (fs : FS) (o : opts) :=
   let c := mk_store ents in
-  (rechecked (t_content cont) (t_imports imps) (fun _ _ _ => []) (t_analyze an) (fun _ => sccs) (t_reach rch) t_sdo (t_thash th) (t_ign ign) c fs o,
-   report fs (fst (run (t_content cont) (t_imports imps) (fun _ _ _ => []) (t_analyze an) (fun _ => sccs) (t_reach rch) t_sdo (t_thash th) (t_ign ign) c fs o 1))).
+  (rechecked (t_content cont) (t_view vw) (t_imports imps) (t_tab prb) (t_analyze an) (fun _ => sccs) (t_reach rch) t_sdo (t_thash th) (t_ign ign) c fs o,
+   report fs (fst (run (t_content cont) (t_view vw) (t_imports imps) (t_tab prb) (t_analyze an) (fun _ => sccs) (t_reach rch) t_sdo (t_thash th) (t_ign ign) c fs o 1))).
+(* the decidable side conditions of the positive theorem: SccFresh (F11), ProbeFresh (F6), KindStable (F7), ImplicitStable (F9) *)
 Definition stab (cont : list (modid * content)) (imps : list (modid * (content * list modid))) (an : list (modid * result))
   (sccs : list (list modid)) (rch : list (modid * modid)) (ents : list (modid * (meta * meta_ex * data)))
-  (ign : list modid) (th : list (modid * nat)) (fs : FS) (o : opts) : bool :=
-  scc_stable (t_content cont) (t_imports imps) (fun _ _ _ => []) (fun _ => sccs) (t_ign ign) (mk_store ents) o fs.
+  (ign : list modid) (th : list (modid * nat)) (vw : list (modid * (stamp * content)))
+  (prb imp : list (modid * list modid)) (fs : FS) (o : opts) :=
+  let c := mk_store ents in
+  (scc_stable (t_content cont) (t_view vw) (t_imports imps) (t_tab prb) (fun _ => sccs) (t_ign ign) c o fs,
+   probe_fresh (t_content cont) (t_view vw) (t_tab prb) (t_ign ign) c o fs,
+   kind_stable (t_content cont) (t_view vw) (t_ign ign) c o fs,
+   implicit_stable (t_content cont) (t_view vw) (t_imports imps) (t_tab prb) (t_tab imp) (fun _ => sccs) (t_reach rch) (t_ign ign) c o fs).
 """
 
 
@@ -859,6 +878,13 @@ def cl(xs) -> str:
 def errs(lst) -> list:
     """error tuples without the once-per-build missing-imports note (its placement is a separate finding, judged by S)"""
     return [e for e in lst if not any("running_mypy.html#missing-imports" in str(x) for x in e)]
+
+
+def mod_of_path(rel: str) -> str:
+    p = rel[:-4] if rel.endswith(".pyi") else rel[:-3]
+    if p.endswith("/__init__"):
+        p = p[: -len("/__init__")]
+    return p.replace("/", ".")
 
 
 def sha1(text: str) -> str:
@@ -889,19 +915,30 @@ def model_cases(h: dict, res: dict) -> list[dict]:
             user = [m for m in w["user"] if w["pre"][m].get("path")]
             uset = set(user)
             try:
-                cont, imps, an, fs, ents = [], [], [], [], []
+                cont, imps, an, fs, ents, vw, prb, imp = [], [], [], [], [], [], [], []
+                universe = {mod_of_path(f) for st_ in h["states"] for f in st_["files"]}
                 o_txt = None
                 for m in user:
                     path = w["pre"][m]["path"]                      # as mypy compares it with meta.path
                     rel = os.path.normpath(w["pre"][m]["rel"])
                     text = st["files"][rel]
                     cid = I(("c", sha1(text)))
+                    vid = I(("v", sha1(text), rel.endswith(".pyi")))
+                    sid = I(('s', path, BASE_MTIME + 10 * last_write[rel], len(text.encode())))
                     cont.append(f"({mods(m)}, {cid})")
-                    fs.append(f"({mods(m)}, {I(('s', path, BASE_MTIME + 10 * last_write[rel], len(text.encode())))})")
+                    fs.append(f"({mods(m)}, {sid})")
+                    vw.append(f"({mods(m)}, ({sid}, {vid}))")
+                    pl = sorted({f"{a}.{b}" for a, b in re.findall(r"^\s*from\s+([\w.]+)\s+import\s+(\w+)", text, re.M)} & universe)
+                    il = sorted(u for u in universe if "." in u and re.search(r"(?<![\w.])" + re.escape(u) + r"\.\w", text)
+                                and not re.search(r"^\s*(import|from)\s+" + re.escape(u) + r"\b", text, re.M))
+                    if pl:
+                        prb.append(f"({mods(m)}, {cl(mods(x) for x in pl)})")
+                    if il:
+                        imp.append(f"({mods(m)}, {cl(mods(x) for x in il)})")
                     ce = c["entries"][m]
                     cm, cx = ce["meta"], ce["ex"]
                     o_txt = o_txt or f"{{| o_snap := {I(('o', cm['options']))}; o_version := {I(('v', cm['version']))}; o_plugin := {I(('p', cm['plugin']))} |}}"
-                    imps.append(f"({mods(m)}, ({cid}, {cl(mods(d) for d in cm['deps'] + cm['supp'] if d in uset or d in cm['supp'])}))")
+                    imps.append(f"({mods(m)}, ({vid}, {cl(mods(d) for d in cm['deps'] + cm['supp'] if d in uset or d in cm['supp'])}))")
                     an.append(f"({mods(m)}, {{| r_iface := {I(('i', cm['ih']))}; r_errors := {cl(I(('e', tuple(e))) for e in errs(cx['errors']))}; "
                               f"r_indirect := {cl(mods(d) for d in cx['deps'] if d in uset)} |}})")
                 usable = {m for m, e in view.items() if "meta" in e and "ex" in e and e.get("data_mtime") is not None}
@@ -912,6 +949,7 @@ def model_cases(h: dict, res: dict) -> list[dict]:
                     if "meta" not in e or "ex" not in e or e.get("data_mtime") is None:
                         continue
                     me, xe = e["meta"], e["ex"]
+                    vw.append(f"({mods(m)}, ({I(('s', me['path'], me['mtime'], me['size']))}, {I(('v', me['hash'], str(me['path']).endswith('.pyi')))}))")
                     dd = [(d, hh) for d, hh in zip(me["deps"], me["dep_hashes"]) if d in uset or d in view]
                     xd = [(d, hh) for d, hh in zip(xe["deps"], xe["dep_hashes"]) if d in uset or d in view]
                     ents.append(
@@ -945,11 +983,19 @@ def model_cases(h: dict, res: dict) -> list[dict]:
                             todo += list(edges[x])
                     reach[i] = seen
                 rch = [f"({mods(m)}, {mods(d)})" for m in user for d in user if idx[d] in reach[idx[m]]]
-                term = (f"case {cl(cont)} {cl(imps)} {cl(an)} {cl(cl(mods(m) for m in s) for s in sccs)} {cl(rch)} {cl(ents)} {cl(mods(m) for m in user if w["pre"][m].get("ignore_all"))} {cl(f"({mods(m)}, {I(('t', w['pre'][m]['thash']))})" for m in user)} {cl(fs)} ({o_txt})")
+                term = (f"case {cl(cont)} {cl(imps)} {cl(an)} {cl(cl(mods(m) for m in s) for s in sccs)} {cl(rch)} {cl(ents)} {cl(mods(m) for m in user if w["pre"][m].get("ignore_all"))} {cl(f"({mods(m)}, {I(('t', w['pre'][m]['thash']))})" for m in user)} {cl(vw)} {cl(prb)} {cl(imp)} {cl(fs)} ({o_txt})")
                 exp_re = sorted(mods(m) for m in set(w["rechecked_modules"]) & uset)
                 exp_rep = {mods(m): [I(("e", tuple(x))) for x in errs(w["entries"][m]["ex"]["errors"])] for m in user
                            if "ex" in w["entries"].get(m, {})}
-                cases.append({"term": term, "k": k, "rechecked": exp_re, "report": exp_rep, "topo_ok": topo_ok,
+                on_disk = {mod_of_path(f) for f in st["files"]}
+                py_probe = True
+                for m in user:
+                    if w["pre"][m].get("meta"):
+                        txt = st["files"][os.path.normpath(w["pre"][m]["rel"])]
+                        for a_, b_ in re.findall(r"^\s*from\s+([\w.]+)\s+import\s+(\w+)", txt, re.M):
+                            if f"{a_}.{b_}" in on_disk and f"{a_}.{b_}" not in (w["pre"][m].get("meta_deps") or []):
+                                py_probe = False
+                cases.append({"py_probe_fresh": py_probe, "term": term, "k": k, "rechecked": exp_re, "report": exp_rep, "topo_ok": topo_ok,
                               "names": {v: kname for kname, v in mods.d.items()}, "idx": h["idx"], "cfg": res["cfg"]})
             except KeyError as e:  # an expected record is missing (e.g. a module the cold run did not reach): not comparable
                 cases.append({"skip": f"history {h['idx']} step {k}: missing {e!r}"})
@@ -999,8 +1045,16 @@ def correspondence(ctx, hs: list[dict], results: list[dict], limit: int) -> None
     # the decidable side condition scc_stable of the positive theorem, evaluated on every compared step
     st_out = ctx.eval_cases("side", COQ_HEADER, [c["term"].replace("case ", "stab ", 1) for c in cases], per_file=120)
     if st_out is not None:
-        ctx.cov["side_condition_scc_stable_true"] = sum(1 for x in st_out if x.strip() == "true")
-        ctx.cov["side_condition_scc_stable_false"] = sum(1 for x in st_out if x.strip() == "false")
+        names = ["scc_stable(F11)", "probe_fresh(F6)", "kind_stable(F7)", "implicit_stable(F9)"]
+        for cse, x in zip(cases, st_out):
+            vals = re.findall(r"true|false", x)
+            if len(vals) == 4 and not cse.get("py_probe_fresh", True):
+                vals[1] = "false"      # a probed name exists on disk although it is not (yet) in the loaded graph
+            for nm_, v in zip(names, vals):
+                ctx.add(f"side_condition_{nm_}_{v}")
+            bad_side = [nm_ for nm_, v in zip(names, vals) if v == "false"]
+            if (cse["idx"], cse["cfg"], cse["k"]) in diverging:
+                ctx.add("diverging_steps_with_a_false_side_condition" if bad_side else "diverging_steps_with_all_side_conditions_true")
     # cache_is_function_of_inputs: the records a warm run leaves = the records the cold run of the same step leaves
     # (source hash, interface hash, error_lines; dependency SETS are counted only), on steps where S sees no divergence
     n_cmp = n_dep = 0
